@@ -307,7 +307,7 @@ func c07() {
 		for _, k := range []string{"unknown-default-action", "no-groups", "unknown-name", "duplicate-name", "conditional-and-unconditional", "argument-index", "unknown-operation"} {
 			run.Require("defect:"+k, 10)
 		}
-		run.Require("policies_of_exactly_4096_instructions_accepted", 1)
+		run.Require("policies_of_4090_to_4096_instructions_accepted", 1)
 		for _, k := range []string{"only", "first", "middle", "last"} {
 			run.Require("unknown-operation-position:"+k, 1)
 		}
